@@ -151,3 +151,23 @@ pub fn peek_all(b: &[u8]) -> Result<(), Fail> {
     lib("header_buffer::opcode", || header_buffer::opcode(b).is_ok())?;
     Ok(())
 }
+
+// ---------------------------------------------------------------------------------------------
+// serialisation helpers
+
+pub fn ser_plain(pk: &Packet) -> Result<Vec<u8>, Fail> {
+    lib("build_bytes_vec", || pk.build_bytes_vec())?.map_err(|e| Fail::new("ser:plain-failed", format!("build_bytes_vec: {:?}", e)))
+}
+
+pub fn ser_compressed(pk: &Packet) -> Result<Vec<u8>, Fail> {
+    lib("build_bytes_vec_compressed", || pk.build_bytes_vec_compressed())?
+        .map_err(|e| Fail::new("ser:compressed-failed", format!("build_bytes_vec_compressed: {:?}", e)))
+}
+
+/// parse and observe, mapping rejection to a failure with the given signature
+pub fn reparse(bytes: &[u8], sig: &str, what: &str) -> Result<APacket, Fail> {
+    let p = parse(bytes)?.map_err(|e| {
+        Fail::new(sig, format!("{} rejected by the parser: {:?} ({} bytes, head {})", what, e, bytes.len(), crate::runner::hex(&bytes[..bytes.len().min(96)])))
+    })?;
+    lib("observe", || crate::bridge::observe(&p))
+}
